@@ -14,7 +14,7 @@ fn gc_stub(rt: &mut RuntimeData) {
     unsafe { GC_CALLS += 1; }
 }
 
-/// the allocator's counter contract, for every counter state, limit and request size
+/// the allocator's counter contract, for every counter state, limit and request size 1..=4096
 /// (loop-free apart from constructing the RuntimeData: complete)
 #[kani::proof]
 #[kani::unwind(10)]
@@ -72,4 +72,25 @@ fn reset_next_gc_matches_new() {
     assert!(a.next_gc.load(Ordering::Relaxed) == fresh);
     assert!(a.allocated.load(Ordering::Relaxed) == 0);
     kani::cover!(junk != fresh, "reachable");
+}
+
+/// zero-sized layouts (the payload of an empty string) are charged `align` bytes by alloc, so dealloc must
+/// refund them too: the refund does not depend on the size being non-zero (system dealloc stubbed: a
+/// zero-sized block has no memory behind it)
+unsafe fn sys_dealloc_stub(_p: *mut u8, _l: Layout) {}
+#[kani::proof]
+#[kani::unwind(10)]
+#[kani::stub(std::alloc::dealloc, sys_dealloc_stub)]
+fn dealloc_refunds_any_size() {
+    let a = CaoLangAllocator::new(std::ptr::null_mut(), kani::any());
+    let size: usize = kani::any();
+    kani::assume(size <= 4096);
+    let l = Layout::from_size_align(size, 4).unwrap();
+    let charge = size + 4;
+    let before: usize = kani::any();
+    kani::assume(before >= charge);
+    a.allocated.store(before, Ordering::Relaxed);
+    unsafe { a.dealloc(NonNull::<u32>::dangling().cast(), l) };
+    assert!(a.allocated.load(Ordering::Relaxed) == before - charge);
+    kani::cover!(size == 0, "zero-sized layout reachable");
 }
